@@ -164,3 +164,140 @@ pub broadcast proof fn lemma_rof_any<T: BinaryDeserializer>(o: &AdtDeserializer,
 {
     reveal(rof_post);
 }
+
+// ======================================================================= record reader as a function
+// The documented outcome table of read_field / read_optional_field (rf_post / rof_post) restated as
+// pure functions over an abstract reader state, so that the reader of a record with evolution
+// steps can be specified as a chain of steps generated from its declaration (tools/catgen_evolved.py).
+
+/// what is left of each chunk, the per-chunk field counters, the string table
+pub ghost struct RS {
+    pub wins: Seq<Seq<u8>>,
+    pub idx: Seq<int>,
+    pub t: Tbl,
+}
+
+/// what the stored data says about itself
+pub ghost struct RH {
+    pub sv: int,
+    pub removed: Set<Seq<char>>,
+    pub mo: Map<(int, int), u8>,
+}
+
+/// `read_field(name, default)`, field of chunk ch: (value, bytes taken from the chunk, state after); None = error
+pub open spec fn rf_step<T: BinaryDeserializer>(s: RS, h: RH, name: Seq<char>, ch: int, d: Option<T::G>) -> Option<(T::G, nat, RS)> {
+    if h.removed.contains(name) { None } else {
+        let i = s.idx[ch] + 1;
+        if h.sv < ch {
+            // the chunk was never written: the declared default, or the specific error
+            match d { Some(dv) => Some((dv, 0nat, RS { wins: s.wins, idx: s.idx.update(ch, i), t: s.t })), None => None }
+        } else {
+            match (if h.mo.contains_key((ch, i)) { dec_flagged::<T>(s.wins[ch], s.t) } else { T::dec(s.wins[ch], s.t) }) {
+                Dec::Ok { v, n, t } => Some((v, n, RS { wins: s.wins.update(ch, s.wins[ch].skip(n as int)), idx: s.idx.update(ch, i), t })),
+                Dec::Err => None,
+            }
+        }
+    }
+}
+
+/// `read_optional_field(name, default)`; os = version at which the READING definition made the field optional (0 if always)
+pub open spec fn rof_step<T: BinaryDeserializer>(s: RS, h: RH, name: Seq<char>, ch: int, os: int, d: Option<Option<T::G>>) -> Option<(Option<T::G>, nat, RS)> {
+    if h.removed.contains(name) { Some((None, 0nat, s)) } else {
+        let i = s.idx[ch] + 1;
+        if h.sv < ch {
+            match d { Some(dv) => Some((dv, 0nat, RS { wins: s.wins, idx: s.idx.update(ch, i), t: s.t })), None => None }
+        } else {
+            match (if h.sv < os { dec_bare::<T>(s.wins[ch], s.t) } else { Option::<T>::dec(s.wins[ch], s.t) }) {
+                Dec::Ok { v, n, t } => Some((v, n, RS { wins: s.wins.update(ch, s.wins[ch].skip(n as int)), idx: s.idx.update(ch, i), t })),
+                Dec::Err => None,
+            }
+        }
+    }
+}
+
+impl<'a, 'b, 'c> AdtDeserializer<'a, 'b, 'c> {
+    /// abstraction: chunk c's unread bytes for the chunks the stored version has (headerless: only
+    /// chunk 0, the stream itself), the counters, the table
+    pub open spec fn rs(&self) -> RS {
+        RS {
+            wins: Seq::new(self.last_index_per_chunk@.len(), |c: int| if c <= self.stored_version && (c == 0 || !self.headerless()) { self.field_window(c) } else { Seq::<u8>::empty() }),
+            idx: Seq::new(self.last_index_per_chunk@.len(), |c: int| self.last_index_per_chunk@[c] as int),
+            t: self.strs(),
+        }
+    }
+    pub open spec fn rh(&self) -> RH {
+        RH { sv: self.stored_version as int, removed: self.removed_fields@, mo: self.made_optional_at@ }
+    }
+    /// the state a record reader works in
+    pub open spec fn rwf(&self) -> bool {
+        &&& self.adwf()
+        &&& (self.headerless() ==> self.stored_version == 0)
+    }
+}
+
+/// ghost value of a declared default
+pub open spec fn gv_of<T: BinaryDeserializer>(x: T) -> T::G { x.gv() }
+
+pub open spec fn gv_opt<T: BinaryDeserializer>(d: Option<T>) -> Option<T::G> {
+    match d { Some(x) => Some(x.gv()), None => None }
+}
+
+pub open spec fn gv_opt2<T: BinaryDeserializer>(d: Option<Option<T>>) -> Option<Option<T::G>> {
+    match d { Some(x) => Some(x.gv()), None => None }
+}
+
+pub broadcast proof fn lemma_rf_step<T: BinaryDeserializer>(o: &AdtDeserializer, a: &AdtDeserializer, name: Seq<char>, d: Option<T>, r: Result<T>)
+    requires
+        #[trigger] rf_post::<T>(o, a, name, d, r),
+        o.rwf(),
+        o.last_index_per_chunk@[o.metadata.chunk_of(name) as int] < 127,
+    ensures
+        match rf_step::<T>(o.rs(), o.rh(), name, o.metadata.chunk_of(name) as int, gv_opt(d)) {
+            Some((v, n, s2)) => r is Ok && r->Ok_0.gv() == v && a.rs() == s2 && a.rh() == o.rh() && a.metadata == o.metadata
+                && a.rwf() && a.headerless() == o.headerless()
+                && n <= o.rs().wins[o.metadata.chunk_of(name) as int].len()
+                && a.dctx().frame_eq(o.dctx()) && a.dctx().current.pos >= o.dctx().current.pos
+                && (o.headerless() ==> a.dctx().remaining() =~= o.dctx().remaining().skip(n as int))
+                && (!o.headerless() ==> a.dctx().remaining() == o.dctx().remaining()),
+            None => r is Err,
+        },
+{
+    reveal(rf_post);
+    let ch = o.metadata.chunk_of(name) as int;
+    if !o.removed_fields@.contains(name) {
+        match rf_step::<T>(o.rs(), o.rh(), name, ch, gv_opt(d)) {
+            Some((v, n, s2)) => {
+                assert(a.rs().idx =~= s2.idx);
+                assert(a.rs().wins =~~= s2.wins);
+            }
+            None => {}
+        }
+    }
+}
+
+pub broadcast proof fn lemma_rof_step<T: BinaryDeserializer>(o: &AdtDeserializer, a: &AdtDeserializer, name: Seq<char>, d: Option<Option<T>>, r: Result<Option<T>>)
+    requires
+        #[trigger] rof_post::<T>(o, a, name, d, r),
+        o.rwf(),
+        o.last_index_per_chunk@[o.metadata.chunk_of(name) as int] < 127,
+    ensures
+        match rof_step::<T>(o.rs(), o.rh(), name, o.metadata.chunk_of(name) as int, o.opt_since(name) as int, gv_opt2(d)) {
+            Some((v, n, s2)) => r is Ok && r->Ok_0.gv() == v && a.rs() == s2 && a.rh() == o.rh() && a.metadata == o.metadata
+                && a.rwf() && a.headerless() == o.headerless()
+                && n <= o.rs().wins[o.metadata.chunk_of(name) as int].len()
+                && a.dctx().frame_eq(o.dctx()) && a.dctx().current.pos >= o.dctx().current.pos
+                && (o.headerless() ==> a.dctx().remaining() =~= o.dctx().remaining().skip(n as int))
+                && (!o.headerless() ==> a.dctx().remaining() == o.dctx().remaining()),
+            None => r is Err,
+        },
+{
+    reveal(rof_post);
+    let ch = o.metadata.chunk_of(name) as int;
+    match rof_step::<T>(o.rs(), o.rh(), name, ch, o.opt_since(name) as int, gv_opt2(d)) {
+        Some((v, n, s2)) => {
+            assert(a.rs().idx =~= s2.idx);
+            assert(a.rs().wins =~~= s2.wins);
+        }
+        None => {}
+    }
+}
